@@ -3,10 +3,12 @@
 // the few IEEE facts a unit needs are separate axioms (prelude/ieee_axioms.rs), each one proved
 // bit-precisely by a loop-free Kani harness in kani/fltlemmas.
 pub mod fp { use vstd::prelude::*; use vstd::std_specs::ops::*;
-pub broadcast axiom fn f64_add_req(a: f64, b: f64) ensures #[trigger] a.add_req(b);
-pub broadcast axiom fn f64_sub_req(a: f64, b: f64) ensures #[trigger] a.sub_req(b);
-pub broadcast axiom fn f64_mul_req(a: f64, b: f64) ensures #[trigger] a.mul_req(b);
-pub broadcast axiom fn f64_div_req(a: f64, b: f64) ensures #[trigger] a.div_req(b);
+// (i) an f64 operation has no precondition (it cannot panic); (ii) its result is a function of its
+// operands (`obeys_*_spec`): `a + b` evaluated twice gives the same value.  NaN payloads are ignored.
+pub broadcast axiom fn f64_add_req(a: f64, b: f64) ensures #[trigger] a.add_req(b), <f64 as AddSpec<f64>>::obeys_add_spec();
+pub broadcast axiom fn f64_sub_req(a: f64, b: f64) ensures #[trigger] a.sub_req(b), <f64 as SubSpec<f64>>::obeys_sub_spec();
+pub broadcast axiom fn f64_mul_req(a: f64, b: f64) ensures #[trigger] a.mul_req(b), <f64 as MulSpec<f64>>::obeys_mul_spec();
+pub broadcast axiom fn f64_div_req(a: f64, b: f64) ensures #[trigger] a.div_req(b), <f64 as DivSpec<f64>>::obeys_div_spec();
 pub broadcast group f64_ops { f64_add_req, f64_sub_req, f64_mul_req, f64_div_req }
 }
 broadcast use fp::f64_ops;
@@ -31,3 +33,7 @@ pub assume_specification [f64::max] (x: f64, y: f64) -> (r: f64) ensures r == s_
 pub uninterp spec fn vac(k: int) -> bool;   // vacuity probes: `if vac(k) { assert(false) }` must FAIL in every run
 pub uninterp spec fn s_powi(x: f64, n: i32) -> f64;
 pub assume_specification [f64::powi] (x: f64, n: i32) -> (r: f64) ensures r == s_powi(x, n);
+pub uninterp spec fn s_is_nan(x: f64) -> bool;
+pub assume_specification [f64::is_nan] (x: f64) -> (r: bool) ensures r == s_is_nan(x);
+pub uninterp spec fn EPSILON_s() -> f64;
+#[verifier::external_body] pub exec const F64_EPSILON: f64 ensures F64_EPSILON == EPSILON_s() { f64::EPSILON }
